@@ -1102,6 +1102,13 @@ class TLSConnection(TLSRecordLayer):
                 else:
                     break
 
+            if result.random == TLS_1_3_HRR:
+                # RFC 8446 section 4.1.4
+                for result in self._sendError(
+                        AlertDescription.unexpected_message,
+                        "Received second HelloRetryRequest"):
+                    yield result
+
         serverHello = result
 
         # Get the server version.  Do this before anything else, so any
